@@ -7,6 +7,7 @@ import (
 	"encoding/json"
 	"fmt"
 	"os"
+	"sync"
 
 	"github.com/ogen-go/ogen"
 	"github.com/ogen-go/ogen/gen"
@@ -75,14 +76,25 @@ func main() {
 		panic(err)
 	}
 	var out []result
-	for _, j := range jobs {
-		r := result{Name: j.Name, OK: true}
-		if err := run(j); err != nil {
-			r.OK = false
-			r.Err = err.Error()
-		}
-		out = append(out, r)
+	// the jobs are independent generator runs: eight at a time
+	out = make([]result, len(jobs))
+	sem := make(chan struct{}, 8)
+	var wg sync.WaitGroup
+	for i, j := range jobs {
+		wg.Add(1)
+		go func(i int, j job) {
+			defer wg.Done()
+			sem <- struct{}{}
+			defer func() { <-sem }()
+			r := result{Name: j.Name, OK: true}
+			if err := run(j); err != nil {
+				r.OK = false
+				r.Err = err.Error()
+			}
+			out[i] = r
+		}(i, j)
 	}
+	wg.Wait()
 	b, _ := json.MarshalIndent(out, "", " ")
 	os.Stdout.Write(b)
 }
